@@ -72,6 +72,7 @@ type runState struct {
 	tmCivil  map[string][2]int64 // day term -> (year, month) decided on this path
 	assumeN  int
 	tryDepth int
+	fresh    int
 	facts    map[string]bool // conditions already decided on this path
 }
 
@@ -138,6 +139,9 @@ func smtName(name string) string {
 // ---------------------------------------------------------------- branching
 
 func (in *Interp) feasible(t *Term) bool {
+	if in.Solver.Dead {
+		panic(pathEnd{"unknown"})
+	}
 	r := in.Solver.Check(t)
 	if r == SolverError {
 		in.noteInconclusive("solver error on feasibility query: " + in.Solver.LastError)
@@ -494,6 +498,10 @@ func (e *Explorer) Explore(fn *ssa.Function) {
 			in.noteInconclusive(fmt.Sprintf("path budget %d exhausted", e.Cfg.MaxPaths))
 			break
 		}
+		if in.Solver.Dead {
+			in.noteInconclusive("solver process died or was killed by the watchdog: " + in.Solver.LastError)
+			break
+		}
 		if !e.Cfg.Deadline.IsZero() && time.Now().After(e.Cfg.Deadline) {
 			in.noteInconclusive("time budget exhausted")
 			break
@@ -585,7 +593,7 @@ func (e *Explorer) runOnce(fn *ssa.Function) (outcome string) {
 			}
 			outcome = "stop"
 		case unsupported:
-			in.noteInconclusive("unsupported: " + p.what)
+			in.noteInconclusive("unsupported: " + p.what + " @ " + in.where())
 			outcome = "stop"
 		case engineError:
 			in.noteInconclusive("engine error: " + p.msg + "\n" + p.stack)
